@@ -115,6 +115,22 @@ fn gen_case(rng: &Rng) -> Scenario {
             };
             txs.push(Tx { id, kind, len: LenPolicy::Generous, enc: g.enc() });
         }
+        // value round trips inside one block (a slot written twice, ending at its value before the block)
+        if g.rng.chance(1, 4) {
+            let pk = g.rng.below(4) as u8;
+            let ticker = g.rng.below(4) as u8;
+            let amt = Amount::Small(g.rng.range(1, 500));
+            if g.rng.chance(1, 2) {
+                id += 2;
+                txs.push(Tx { id: id - 1, kind: TxKind::Deposit { to: Who::Pk(pk), ticker, amount: amt.clone() }, len: LenPolicy::Generous, enc: Enc::Hex });
+                txs.push(Tx { id, kind: TxKind::Withdraw { from: Who::Pk(pk), ticker, amount: amt }, len: LenPolicy::Generous, enc: Enc::Hex });
+            } else {
+                let other = (pk + 1 + g.rng.below(3) as u8) % 4;
+                id += 2;
+                txs.push(Tx { id: id - 1, kind: TxKind::Call { sender: pk, target: Target::Token(ticker), by_inscription: false, data: Cd::Tok(Erc::Transfer { to: Who::Pk(other), amount: amt.clone() }) }, len: LenPolicy::Generous, enc: Enc::Hex });
+                txs.push(Tx { id, kind: TxKind::Call { sender: other, target: Target::Token(ticker), by_inscription: false, data: Cd::Tok(Erc::Transfer { to: Who::Pk(pk), amount: amt }) }, len: LenPolicy::Generous, enc: Enc::Hex });
+            }
+        }
         let ts = 10 + id as u64;
         ops.push(Op::Block { ts, hash: g.hash_mode(), txs, finalise: true });
         if g.rng.chance(1, 4) {
